@@ -161,6 +161,46 @@ def _normalise_nested_ifs(tree: ast.Module) -> None:
                 changed = True
 
 
+def _split_disjunctive_guards(tree: ast.Module) -> None:
+    """`if p or q: continue` is `if p: continue` followed by `if q: continue` (and `if not (a and b): continue` is the
+    same thing written with De Morgan).  The split form is canonical, so that a chain of loop guards and one merged
+    guard give the rules the same conditions."""
+    def lits(t, negate=False):
+        if isinstance(t, ast.UnaryOp) and isinstance(t.op, ast.Not):
+            return lits(t.operand, not negate)
+        if isinstance(t, ast.BoolOp) and ((isinstance(t.op, ast.Or) and not negate) or (isinstance(t.op, ast.And) and negate)):
+            out = []
+            for v in t.values:
+                out += lits(v, negate)
+            return out
+        if negate:
+            n = ast.UnaryOp(op=ast.Not(), operand=t)
+            ast.copy_location(n, t)
+            return [n]
+        return [t]
+
+    def conv(body):
+        out = []
+        for st in body:
+            if isinstance(st, ast.If) and not st.orelse and len(st.body) == 1 and isinstance(st.body[0], ast.Continue) \
+                    and not any(isinstance(x, ast.NamedExpr) for x in ast.walk(st.test)):
+                parts = lits(st.test)
+                if len(parts) > 1:
+                    for p_ in parts:
+                        c_ = ast.Continue()
+                        ast.copy_location(c_, st.body[0])
+                        g = ast.If(test=p_, body=[c_], orelse=[])
+                        ast.copy_location(g, p_)
+                        g.end_lineno = getattr(p_, "end_lineno", getattr(p_, "lineno", None))
+                        out.append(g)
+                    continue
+            out.append(st)
+        return out
+    for n in ast.walk(tree):
+        if isinstance(n, ast.For) and not n.orelse:
+            n.body = conv(n.body)
+
+
 def _normalise_local_annotations(tree: ast.Module) -> None:
     """Inside function bodies, `x: T = v` is the same statement as `x = v` for every rule
     here: rewrite it to an Assign (the annotation is kept in `.ann`), so that adding or
@@ -338,6 +378,7 @@ class Index:
                 _normalise_nested_ifs(tree)
                 if os.environ.get("VT_NO_TRAILING_IF_NORM") != "1":
                     _normalise_trailing_ifs(tree)
+                    _split_disjunctive_guards(tree)
                 mi = ModuleInfo(modname, path, os.path.relpath(path, self.root), tree, src)
                 self.modules[modname] = mi
                 self._index_module(mi, is_pkg=fn == "__init__.py")
